@@ -517,7 +517,6 @@ void LogsumHmmLikelihood::computeD2Forward_() const
   vector<size_t>::const_iterator bpIt = breakPoints_.begin();
   if (bpIt != breakPoints_.end())
     nextBrkPt = *bpIt;
-  partialDLogLikelihoods_.clear();
 
   for (size_t i = 1; i < nbSites_; i++)
   {
@@ -544,7 +543,8 @@ void LogsumHmmLikelihood::computeD2Forward_() const
 
         num3 = (dLogLikelihood_[i - 1] * dLogLikelihood_[i - 1] + d2LogLikelihood_[i - 1]) * trans.getCol(j);
 
-        d2LogLikelihood_[i][j] =  VectorTools::sumExp(num, num3) / den - pow(VectorTools::sumExp(num, num2) / den, 2);
+        d2LogLikelihood_[i][j] = (*d2Emissions)[j] / (*emissions)[j] - pow((*dEmissions)[j] / (*emissions)[j], 2)
+            + VectorTools::sumExp(num, num3) / den - pow(VectorTools::sumExp(num, num2) / den, 2);
       }
     }
     else // Reset markov chain:
